@@ -25,6 +25,7 @@
 #include "preprocess/captive_child.hh"
 #include <signal.h>
 #include <sys/resource.h>
+#include <sys/wait.h>
 #include <unistd.h>
 
 static void nat(const char *n, unsigned long long v) { printf("nat %s %llu\n", n, v); }
@@ -62,18 +63,25 @@ int main() {
     fflush(stdout);
     struct rlimit nocore = {0, 0};
     const int codes[] = {0, 1, 2, 3, 126, 127, 200, 255};
+    // every Wait(child) is called while an unrelated child of this process has already terminated (exit 0) and has
+    // not been collected: the result must be the status of `child`, not of whichever child ends first
+    auto decoy = []() { pid_t d = fork(); if (d == 0) _exit(0); siginfo_t info; waitid(P_PID, d, &info, WEXITED | WNOWAIT); return d; };
     for (int c : codes) {
+      pid_t d = decoy();
       pid_t pid = fork();
       if (pid == 0) _exit(c);
       printf("waitexit %d %d\n", c, preprocess::Wait(pid));
       fflush(stdout);
+      int st; waitpid(d, &st, 0);
     }
     const int sigs[] = {1, 2, 3, 4, 5, 6, 7, 8, 9, 10, 11, 12, 13, 14, 15, 16, 24, 25, 26, 27, 29, 30, 31};
     for (int sg : sigs) {
       pid_t pid = fork();
       if (pid == 0) { setrlimit(RLIMIT_CORE, &nocore); signal(sg, SIG_DFL); kill(getpid(), sg); _exit(77); }
+      pid_t d = decoy();
       printf("waitsig %d %d\n", sg, preprocess::Wait(pid));
       fflush(stdout);
+      int st; waitpid(d, &st, 0);
     }
   }
   // Flatten rule tables per language (C19): one line per start character
